@@ -136,6 +136,16 @@ func randGeom(rng *rand.Rand, gtype gsgpkg.GeometryType, i int) (geom.Geometry, 
 			return geom.LineString{}, true, [4]int{}
 		}
 		return geom.LineString{{fx, fy}, {fx + fw, fy + fh}}, false, bb
+	case gsgpkg.MultiPoint:
+		if empty {
+			return geom.MultiPoint{}, true, [4]int{}
+		}
+		return geom.MultiPoint{{fx, fy}, {fx + fw, fy + fh}}, false, bb
+	case gsgpkg.MultiLinestring:
+		if empty {
+			return geom.MultiLineString{}, true, [4]int{}
+		}
+		return geom.MultiLineString{{{fx, fy}, {fx + fw, fy}}, {{fx, fy + fh}, {fx + fw, fy + fh}}}, false, bb
 	case gsgpkg.MultiPolygon:
 		if empty {
 			return geom.MultiPolygon{}, true, [4]int{}
@@ -342,6 +352,16 @@ func normGeom(g geom.Geometry) interface{} {
 			return "EMPTY"
 		}
 		return [][][][2]float64(t)
+	case geom.MultiPoint:
+		if len(t) == 0 {
+			return "EMPTY"
+		}
+		return [][2]float64(t)
+	case geom.MultiLineString:
+		if len(t) == 0 {
+			return "EMPTY"
+		}
+		return [][][2]float64(t)
 	case nil:
 		return "NIL"
 	}
@@ -359,7 +379,8 @@ func gpkgCase(args []string) int {
 	gt := fs.String("gtype", "polygon", "polygon|multipolygon|point|linestring")
 	fs.Parse(args)
 	rng := rand.New(rand.NewSource(*seed))
-	gtype := map[string]gsgpkg.GeometryType{"polygon": gsgpkg.Polygon, "multipolygon": gsgpkg.MultiPolygon, "point": gsgpkg.Point, "linestring": gsgpkg.Linestring}[*gt]
+	gtype := map[string]gsgpkg.GeometryType{"polygon": gsgpkg.Polygon, "multipolygon": gsgpkg.MultiPolygon, "point": gsgpkg.Point, "linestring": gsgpkg.Linestring,
+		"multipoint": gsgpkg.MultiPoint, "multilinestring": gsgpkg.MultiLinestring}[*gt]
 	st := randTable(rng, "t"+itoa(rng.Intn(1000)), *count, gtype)
 	srcPath := filepath.Join(*dir, "src.gpkg")
 	tgtPath := filepath.Join(*dir, "tgt.gpkg")
